@@ -135,7 +135,7 @@ fn real_main() {
         let t0 = std::time::Instant::now();
         if let Some(k) = args.seeded {
             // translator validation: all variables are constants; the shadow crate constant-folds in real f32
-            symrt::with(|a| { a.no_ties = false; a.forbid_forks = false; a.fold_inexact = true; });
+            symrt::with(|a| { a.no_ties = false; a.forbid_forks = false; a.fold_inexact = true; a.extreme_forks = false; });
             let mut ctx = Ctx::new(Mode::Seeded(k));
             let r = ctx.catch(|ctx| (case.run)(ctx));
             let vals: Vec<String> = ctx.values.iter().map(|(role, b)| format!("[\"{}\",{}]", esc(role), b)).collect();
@@ -143,7 +143,7 @@ fn real_main() {
                 match &r { Ok(_) => "null".to_string(), Err(m) => format!("\"{}\"", esc(m)) }, vals.join(",")).unwrap();
             continue;
         }
-        symrt::with(|a| { a.no_ties = case.no_ties; a.forbid_forks = false; a.fold_inexact = false; });
+        symrt::with(|a| { a.no_ties = case.no_ties; a.forbid_forks = false; a.fold_inexact = false; a.extreme_forks = false; });
         let explored = std::panic::catch_unwind(std::panic::AssertUnwindSafe(|| {
             symrt::explore(case.max_paths, || {
                 symrt::clear_assumptions();
